@@ -82,6 +82,11 @@ add("KF-solve-broadcast-a", ["C01", "C05", "C09"],
     {"prim": "solve", "tags": {"__has__": "bcast_a"}, "symptom": ["wrong_shape", "wrong_value", "not_adjoint"]},
     case("solve", [W(2), A(3, 2, 3)], ns="linalg", argnum=0, tags=["bcast_a"]))
 
+add("KF-order-A-fortran-layout", ["C01", "C02", "C09"],
+    "np.reshape / np.ravel / ndarray.flatten with order='A' on an argument that is Fortran-contiguous (not C-contiguous): NumPy reads the argument in Fortran order, but the VJP reshapes the (C-ordered) cotangent back with order='A' (= C order) and the JVP applies order='A' to the tangent's own layout; the derivative entries land at permuted positions. A repair needs the argument's layout inside both rules (custom JVP instead of 'same')",
+    {"prim": ["reshape", "ravel", "flatten"], "layout": "F", "kw": {"order": "str:A"}, "symptom": ["wrong_value", "not_adjoint", "modes_disagree"]},
+    case("ravel", [A(2, 3)], {"order": "A"}, layout="F"))
+
 # C06
 from vf.common import enc  # noqa
 
